@@ -1076,6 +1076,20 @@ func AccessPath(v ssa.Value) (string, bool) {
 	if v == nil {
 		return "<none>", false
 	}
+	// a field of a grouping struct whose value, where the struct was filled, is a computed one
+	// without a name of its own (path.Clean("/"+shimPath)+"/"): it keeps the name of its field
+	if u, isU := v.(*ssa.UnOp); isU && u.Op == token.MUL {
+		if fa, isFA := u.X.(*ssa.FieldAddr); isFA && IsNewType(fa.X.Type()) {
+			if pv := Peel(v); pv != v {
+				if pth, ok := AccessPath(pv); ok {
+					return pth, true
+				}
+				if b, ok := AccessPath(fa.X); ok {
+					return fieldStep(b, fa.X, fa.Field, ""), true
+				}
+			}
+		}
+	}
 	v = Peel(v)
 	switch x := v.(type) {
 	case *ssa.Parameter:
@@ -1302,6 +1316,8 @@ type Env func(v ssa.Value) (constant.Value, bool)
 
 // Eval evaluates v under env as far as constants, env values, len() of env
 // values and simple arithmetic/comparisons allow.
+var evalDepth int
+
 func Eval(v ssa.Value, env Env) (constant.Value, bool) {
 	if env != nil {
 		if c, ok := env(v); ok {
@@ -1314,6 +1330,15 @@ func Eval(v ssa.Value, env Env) (constant.Value, bool) {
 			return nil, false
 		}
 		return x.Value, true
+	case *ssa.Parameter:
+		// the parameter of a new helper with one call site: what it was given there
+		if a := helperParamArg(x); a != nil && evalDepth < 6 {
+			evalDepth++
+			c, ok := Eval(a, env)
+			evalDepth--
+			return c, ok
+		}
+		return nil, false
 	case *ssa.Phi:
 		return evalPhi(x, env)
 	case *ssa.Call:
@@ -1335,6 +1360,46 @@ func Eval(v ssa.Value, env Env) (constant.Value, bool) {
 					return nil, false
 				}
 				return Eval(rs[0], inner)
+			}
+		}
+		// … or several (a predicate written as a switch): the value of every return that can be
+		// reached when the branches are decided under the same bindings, if they all agree
+		if h, ok := calleeFn(x.Call.Value); ok && IsNewHelper(h) && x.Call.Signature().Results().Len() == 1 && len(h.Blocks) > 0 && evalDepth < 4 {
+			inner := func(u ssa.Value) (constant.Value, bool) {
+				if env != nil {
+					if c, ok := env(u); ok {
+						return c, true
+					}
+				}
+				for k, prm := range h.Params {
+					if u == ssa.Value(prm) && k < len(x.Call.Args) {
+						return Eval(x.Call.Args[k], env)
+					}
+				}
+				return nil, false
+			}
+			evalDepth++
+			var got constant.Value
+			agree, n := true, 0
+			(&Walk{Target: func(i ssa.Instruction) bool {
+				r, isR := i.(*ssa.Return)
+				if !isR || i.Parent() != h || len(r.Results) != 1 {
+					return false
+				}
+				n++
+				cv, okv := Eval(r.Results[0], inner)
+				if !okv {
+					agree = false
+				} else if got == nil {
+					got = cv
+				} else if !constant.Compare(got, token.EQL, cv) {
+					agree = false
+				}
+				return false
+			}, Edge: EdgeUnder(inner), Local: true}).FromBlock(h.Blocks[0])
+			evalDepth--
+			if agree && n > 0 && got != nil {
+				return got, true
 			}
 		}
 		return nil, false
